@@ -104,6 +104,7 @@ func (Engine) Generate(r *simcore.RNG, tier string, idx int) *simcore.Plan {
 		p.Config["mint_reduction"] = 3
 	}
 	p.Config["superfluid"] = int64(r.Intn(2)) // pool 1's shares are a superfluid asset
+	sfHeavy := p.Config["superfluid"] == 1 && r.Chance(0.5)
 	faults := idx%2 == 1
 	p.Config["replica_c"] = 0
 	if faults {
@@ -132,7 +133,17 @@ func (Engine) Generate(r *simcore.RNG, tier string, idx int) *simcore.Plan {
 			if b < 6 {
 				wts = earlyWeights
 			}
-			p.Steps = append(p.Steps, txStep(txKinds[r.Weighted(wts)]))
+			kind := txKinds[r.Weighted(wts)]
+			if sfHeavy && b >= 1 && r.Chance(0.4) {
+				// superfluid-heavy profile: several owners join pool 1, lock its shares for various
+				// durations and delegate them (new and existing locks) to the few validators
+				kind = []string{"gamm-join", "lock", "sf-delegate", "sf-delegate", "sf-delegate", "sf-undelegate"}[r.Intn(6)]
+			}
+			st := txStep(kind)
+			if sfHeavy && kind == "gamm-join" {
+				st.A[1] = 0 // pool 1
+			}
+			p.Steps = append(p.Steps, st)
 		}
 		if b == forkAt {
 			p.Steps = append(p.Steps, simcore.Step{Op: "fork"})
